@@ -107,6 +107,34 @@ func directedHistories() []struct {
 				roundOf(0, 6, 4, 27*s, votes),
 			}})
 	}
+	// C04-D (seeded): the same handover with CORRECT nodes only, their observations produced by the real
+	// Plugin.Observation from a channel-definition cache that lists channel 2 only two rounds after the promotion:
+	// whatever correct nodes vote in between, S's first report of 2 must start where P's last report of 2 ended
+	for _, pver := range []uint32{0, 1} {
+		iv := uint64(1)
+		if pver == 0 {
+			iv = 0
+		}
+		hr := func(inst int, seq uint64, ts uint64, target map[uint32]defDesc, retire bool) roundIn {
+			r := roundIn{Inst: inst, Seq: seq, Target: target, Retire: retire}
+			for i := 0; i < 4; i++ {
+				r.Obs = append(r.Obs, obsIn{Honest: true, Ts: ts + uint64(i), Values: map[uint32]*svDesc{1: decOf(100, 0), 2: decOf(200, 0)}})
+			}
+			return r
+		}
+		both := map[uint32]defDesc{1: jsonDef, 2: jsonDef2}
+		one := map[uint32]defDesc{1: jsonDef}
+		add("handover-late-channel-correct-nodes-only", histIn{
+			Cfgs: []instCfg{{F: 1, N: 4, PVer: pver, Interval: iv}, {F: 1, N: 4, PVer: pver, Interval: iv, HasPred: true}},
+			Rounds: []roundIn{
+				hr(0, 1, 0, both, false), hr(1, 1, 0, one, false),
+				hr(0, 2, 10*s, both, false), hr(1, 2, 10*s, one, false),
+				hr(0, 3, 12*s, both, false), hr(1, 3, 12*s, one, false),
+				hr(0, 4, 14*s, both, false), hr(0, 5, 16*s, both, true), hr(0, 6, 18*s, both, true),
+				hr(1, 4, 19*s, one, false), hr(1, 5, 21*s, one, false), hr(1, 6, 23*s, one, false),
+				hr(1, 7, 25*s, both, false), hr(1, 8, 27*s, both, false), hr(1, 9, 29*s, both, false),
+			}})
+	}
 	// B1: interval 2^64-1 and a repeated timestamp: validAfter == observation timestamp must NOT be reportable
 	add("B1-interval-overflow", histIn{
 		Cfgs: []instCfg{{F: 1, N: 4, PVer: 1, Interval: ^uint64(0)}},
